@@ -43,6 +43,8 @@ TWINS = [
     ("path-snapshot-np-copy", "gemclus/sparse/_base_sparse.py", [("            best_weights = [w.copy() for w in weights]\n            if clf.verbose:", "            best_weights = [np.copy(w) for w in weights]\n            if clf.verbose:")]),
     ("print-names-guard-rewritten", "gemclus/tree/kauri.py", [("len(feature_names) <= max(used_features):", "max(used_features) >= len(feature_names):")]),
     ("kernelrim-penalty-reordered", "gemclus/linear/_linear_geminis.py", [("base_grads[0] += 2 * self.reg * np.dot(self._training_kernel, self.W_)", "base_grads[0] += self.reg * 2 * (self._training_kernel @ self.W_)")]),
+    ("prox-closed-form-rewritten", "gemclus/sparse/_prox_grad.py",
+     [("    W_star = np.maximum(W_norms - alpha, 0) * W / np.where(W_norms == 0, 1, W_norms)\n", "    safe_norms = np.where(W_norms == 0, 1, W_norms)\n    W_star = np.maximum(1 - alpha / safe_norms, 0) * W\n")]),
     ("docstring-and-comment-edit", "gemclus/_base_gemini.py", [("        # Fix the random seed\n", "        # Seed the generator used everywhere below\n")]),
     ("tree-add-child-extend", "gemclus/tree/kauri.py", [("        self.gains += [0, 0]\n", "        self.gains.extend([0, 0])\n")]),
     ("val-score-step-assign", "gemclus/sparse/_base_sparse.py", [("        j += batch_size\n    validation_gemini /= len(X)", "        j = j + batch_size\n    validation_gemini /= len(X)")]),
